@@ -4,7 +4,7 @@ from ..rules import factors, status, image, algebra, opacity, codec
 
 def run(ck):
     P = facts.load()
-    ck.not_decided = ('not decided: that alpha-less fetchers really deliver alpha 255 for SIMD fetchers (C10 decides it for the general accessors); that solid/1x1 presentations fetch the same value.')
+    ck.not_decided = ('not decided: that solid/1x1 presentations fetch the same value (a 1x1 repeating image under a convolution filter whose kernel does not sum to 1 is still classified as solid); transformed SIMD fetchers of alpha-less formats beyond the loops C09-R5 executes.')
     algebra.r9_operator_table(ck, P)
     opacity.r2_opacity_flags(ck, P)
     opacity.r3_mask_elision(ck, P)
